@@ -317,6 +317,10 @@ def _r2_new_turns_core(ctx, prog):
     idx_name = ft[0].targets[0].elts[0].id if isinstance(ft[0].targets[0], ast.Tuple) else None
     ts = tail_stores[0]
     v = ts.value
+    if len(tail_stores) > 1:
+        ctx.violated(fi, tail_stores[1], "the carried sample tail is assigned %d times in _new_turns (%s): anything removed from the "
+                     "suffix changes its length, which is the position offset of the next chunk" %
+                     (len(tail_stores), norm_text(tail_stores[1])), text="tail stored twice")
     if not (isinstance(v, ast.Subscript) and isinstance(v.slice, ast.Slice) and v.slice.upper is None):
         ctx.violated(fi, ts, "sample tail is not a suffix slice of the analysed samples")
     elif norm_text(v.value) != seen_arr:
